@@ -223,7 +223,8 @@ def check_run(sh, case, letters, obs):
     n = len(letters)
     d = U.payoff_dim(case["payoff"])
     cvk = case["cv"]
-    # labels used in the violation keys: the sub "mixed" adds payoff kind, representation and position of the pricing
+    # labels used in the violation keys: the sub "mixed" appends payoff kind, representation and position of the pricing
+    # to the dimension label (which ends every key)
     dimk = case.get("dimlab", _dimk(d))
     cvlab = case.get("cvlab", cvk)
     nt, df = case["notional"], case["df"]
@@ -489,7 +490,7 @@ def _pricings(case):
     for k, rep in enumerate(reps):
         pos = "first-pricing" if k == 0 else f"second-pricing-after-{reps[k - 1]}"
         lab = f"{case['payoff']}:{rep}:{pos}"
-        out.append(dict(case, rep=rep, cvlab=f"{case['cv']}:{lab}", dimlab=f"{_dimk(U.payoff_dim(case['payoff']))}:{lab}"))
+        out.append(dict(case, rep=rep, dimlab=f"{_dimk(U.payoff_dim(case['payoff']))}:{lab}"))
     return out
 
 
@@ -515,7 +516,7 @@ def check_case(sh, case):
         for c, obs in runs:
             check_run(sh, c, letters, obs)
             if case["sub"] == "mixed":
-                sh.cls(f"mixed:{U.PAYOFF_UNDERLYING[case['payoff']]}-product:{c['rep']}:{'first' if c['cvlab'].endswith('first-pricing') else 'second'}-pricing")
+                sh.cls(f"mixed:{U.PAYOFF_UNDERLYING[case['payoff']]}-product:{c['rep']}:{'first' if c['dimlab'].endswith('first-pricing') else 'second'}-pricing")
         if len(set(letters)) > 1:
             nontrivial = True
         if idx == case["lo"]:
